@@ -12,15 +12,32 @@ From Coq Require Import List NArith Arith Bool.
 From HV Require Import Base.Res Base.Str Model.Onset.
 Import ListNotations.
 
-(* One top-level group of an assembled row: its Delay value (if it holds a
-   Delay tag) and its temporal marker (if it holds Onset/Offset/Inset). *)
-Definition group := (option N * option marker)%type.
+(* One top-level group of an assembled row: its Delay tag (if any, with its value in
+   seconds if the unit converts) and its temporal marker (if it holds Onset/Offset/Inset). *)
+Inductive delay_tag : Set :=
+| NoDelay                       (* the group holds no Delay tag *)
+| Delay (v : option N).         (* tag.value_as_default_unit(): None = a unit without a conversion
+                                   to seconds (Delay/1 year, Delay/1 month) *)
+Definition group := (delay_tag * option marker)%type.
+
+(* ErrorSeverity of an issue of HedValidator.run_basic_checks (ERROR = 1, WARNING = 10) *)
+Inductive sev : Set := SevError | SevWarning.
+
+(* check_for_any_errors(issues): some issue has severity < WARNING *)
+Definition check_for_any_errors (issues : list sev) : bool :=
+  existsb (fun x => match x with SevError => true | SevWarning => false end) issues.
 
 Record row : Set := mkRow {
   r_onset : N;                 (* the onset column *)
-  r_invalid : bool;            (* row_number in invalid_original_rows (basic checks failed) *)
+  r_cells : list (list sev);   (* for every non-empty HED cell of the row, in column order: the severities of
+                                  the issues run_basic_checks reported for it *)
   r_groups : list group        (* top-level groups of the assembled HED string, in order *)
 }.
+
+(* SpreadsheetValidator._run_checks: "if check_for_any_errors(new_column_issues):
+   self.invalid_original_rows.add(row_number)" -- new_column_issues is what the LAST non-empty cell of the
+   row left there ([] when the row has none): a row fails only on an ERROR there; warnings do not count. *)
+Definition row_failed (r : row) : bool := check_for_any_errors (last (r_cells r) []).
 
 (* a line of split_df: onset, original_index, the groups of its HED text *)
 Record entry : Set := mkEntry {
@@ -102,13 +119,17 @@ Definition needs_sorting (rows : list row) : bool := negb (sortedb r_onset rows)
 
 (* ---------- split_delay_tags (before the sort) ---------- *)
 Definition remaining_groups (r : row) : list (option marker) :=
-  flat_map (fun g : group => match fst g with None => [snd g] | Some _ => [] end) (r_groups r).
+  flat_map (fun g : group => match fst g with
+                             | NoDelay => [snd g]
+                             | Delay None => [snd g]      (* if delay is None: continue -- stays in its row *)
+                             | Delay (Some _) => []       (* to_remove.append(group) *)
+                             end) (r_groups r).
 
 Definition delayed_entries (ir : nat * row) : list entry :=
   flat_map (fun g : group =>
               match fst g with
-              | Some d => [mkEntry (r_onset (snd ir) + d)%N (fst ir) [snd g]]
-              | None => []
+              | Delay (Some d) => [mkEntry (r_onset (snd ir) + d)%N (fst ir) [snd g]]
+              | _ => []
               end) (r_groups (snd ir)).
 
 (* split_df: one line per row (Delay groups removed), then one appended line
@@ -211,7 +232,7 @@ Definition process_file_from (fixed : bool) (perm1 perm2 : option (list nat)) (o
   let* sorted := sort_dataframe_by_onsets e_time fixed perm2 entries in
   let d := indexed_dict_from_onsets (map e_time sorted) in
   let* lines := filter_by_index_list sorted d in
-  let invalid := flat_map (fun ir : nat * row => if r_invalid (snd ir) then [fst ir] else []) irows in
+  let invalid := flat_map (fun ir : nat * row => if row_failed (snd ir) then [fst ir] else []) irows in
   Ok (run_onset_checks invalid ov lines).
 
 (* "self._onset_validator = OnsetValidator()": every validate() call makes a fresh validator *)
